@@ -187,4 +187,4 @@ replace (
 	k8s.io/kubernetes/staging/src/k8s.io/apimachinery => k8s.io/apimachinery v0.27.0-alpha.2
 )
 
-replace github.com/chain4energy/c4e-chain => /tmp/one-C06-9-1
+replace github.com/chain4energy/c4e-chain => /repo
